@@ -155,6 +155,19 @@ Fixpoint at_most (runp : list tok -> nat -> outcome) (n : nat) (ts : list tok) (
 
 Definition rlist_items (v : pres) : list pres := match v with RList l => l | _ => [] end.
 
+(* whole(parsers) on a token list: reduce(add, parsers), then finished; [runq] runs one parser *)
+Definition run_seq_with (runq : pat -> list tok -> nat -> outcome) :=
+  fix go (ps : list pat) (first : bool) (acc : pres) (ts : list tok) (pos : nat) {struct ps} : outcome :=
+  match ps with
+  | [] => match ts with [] => Ok acc [] pos | _ => Fail pos end
+  | q :: ps' =>
+      match runq q ts pos with
+      | Ok v ts1 pos1 =>
+          go ps' (first && ignored q) (if ignored q then acc else if first then v else magic acc v) ts1 pos1
+      | o => o
+      end
+  end.
+
 Fixpoint run (p : pat) (ts : list tok) (pos : nat) {struct p} : outcome :=
   match p with
   | Some_ pr =>
@@ -211,17 +224,7 @@ Fixpoint run (p : pat) (ts : list tok) (pos : nat) {struct p} : outcome :=
       | TGroup k' _ kids :: r =>
           if gkind_eqb k k' then
             (* whole(ps).parse(kids): a fresh parse starting at position 0 *)
-            match (fix seq (ps : list pat) (first : bool) (acc : pres) (ts : list tok) (pos : nat) {struct ps} : outcome :=
-                     match ps with
-                     | [] => match ts with [] => Ok acc [] pos | _ => Fail pos end
-                     | q :: ps' =>
-                         match run q ts pos with
-                         | Ok v ts1 pos1 =>
-                             seq ps' (first && ignored q)
-                                 (if ignored q then acc else if first then v else magic acc v) ts1 pos1
-                         | o => o
-                         end
-                     end) ps true RNone kids 0 with
+            match run_seq_with run ps true RNone kids 0 with
             | Ok v _ _ =>
                 Ok (RGroup k (match shape_whole (length ps) (count_non_ignored ps) v with RTup l => l | x => [x] end)) r (S pos)
             | Fail p => Fail p
@@ -240,16 +243,7 @@ Fixpoint run (p : pat) (ts : list tok) (pos : nat) {struct p} : outcome :=
   end.
 
 (* the parser of a decorator: whole(pattern list) on the argument list *)
-Fixpoint run_seq (ps : list pat) (first : bool) (acc : pres) (ts : list tok) (pos : nat) : outcome :=
-  match ps with
-  | [] => match ts with [] => Ok acc [] pos | _ => Fail pos end
-  | q :: ps' =>
-      match run q ts pos with
-      | Ok v ts1 pos1 =>
-          run_seq ps' (first && ignored q) (if ignored q then acc else if first then v else magic acc v) ts1 pos1
-      | o => o
-      end
-  end.
+Definition run_seq := run_seq_with run.
 
 Definition parse_whole (ps : list pat) (args : list tok) : outcome :=
   match run_seq ps true RNone args 0 with
